@@ -1179,7 +1179,11 @@ def lib_getattr(it, obj: VLib, name: str):
             return r if name in ("name", "suffix") else VLib("Path", s=r)
     if k == "Match":
         return VBuiltin("Match." + name, self_obj=obj)
-    if k in ("File", "Struct", "HashCtx", "IntelHex", "AESGCM", "PrivateKey", "PublicKey", "environ", "Pattern", "ConfigParser"):
+    if k == "PrivateKey" and name == "key_size":
+        if obj.f["ktype"] != "ec":
+            it.raise_(AttributeError, "'Ed25519PrivateKey' object has no attribute 'key_size'")
+        return obj.f["key_size"]
+    if k in ("File", "Struct", "HashCtx", "IntelHex", "AESGCM", "PrivateKey", "PublicKey", "environ", "Pattern", "ConfigParser", "EddsaSigner"):
         return VBuiltin(f"{k}.{name}", self_obj=obj)
     if k == "PublicNumbers":
         if name in ("x", "y"):
@@ -1629,3 +1633,148 @@ def _spec_unhex(it, self, args, kw):
         return VBytes(bytes.fromhex(x.conc))
     t = s.UNHEX(x.e)
     return VBytes(t)
+
+
+# ---------------------------------------------------------------------------------------------
+# asymmetric keys / signatures (ASSUMED: cryptography + pycryptodome) — C04, C09, C15
+# ---------------------------------------------------------------------------------------------
+KEY_OK = z3.Function("PRIVATE_KEY_DATA_OK", BSort, B_)
+ECDSA_R = z3.Function("ECDSA_R", BSort, I, BSort, I)  # key data, key size, message -> r
+ECDSA_S = z3.Function("ECDSA_S", BSort, I, BSort, I)
+EDDSA_SIG = z3.Function("EDDSA_SIG", BSort, S, BSort, BSort)  # key data, variant, message -> signature
+KEY_KINDS = [("ec", 256), ("ec", 384), ("ec", 521), ("ed25519", 256), ("ed448", 456)]
+
+
+def _load_private_key(it, data, fmt):
+    """load_pem/der_private_key: ValueError on malformed data; otherwise one of the five supported key kinds (case split)."""
+    if not isinstance(data, VBytes):
+        it.raise_(TypeError, "data must be bytes-like")
+    _s().note(it, f"cryptography load_{fmt}_private_key")
+    if not it.branch(KEY_OK(data.e)):
+        it.raise_(ValueError, "Could not deserialize key data")
+    kind, size = KEY_KINDS[it.choose(len(KEY_KINDS), "keykind")]
+    return VLib("PrivateKey", ktype=kind, key_size=VInt(size), data=data)
+
+
+@handler("load_pem_private_key", "serialization.load_pem_private_key")
+def _load_pem(it, self, args, kw):
+    return _load_private_key(it, argn(args, kw, 0, "data"), "pem")
+
+
+@handler("load_der_private_key", "serialization.load_der_private_key")
+def _load_der(it, self, args, kw):
+    return _load_private_key(it, argn(args, kw, 0, "data"), "der")
+
+
+@handler("ec.ECDSA")
+def _ecdsa(it, self, args, kw):
+    return VLib("ECDSA", alg=args[0])
+
+
+@handler("PrivateKey.sign")
+def _pk_sign(it, self, args, kw):
+    data = args[0]
+    if not isinstance(data, VBytes):
+        it.raise_(TypeError, "data must be bytes-like")
+    it.trace.append(("crypto-sign", self.f["ktype"], self.f["key_size"].conc, data))
+    if self.f["ktype"] == "ec":
+        if len(args) < 2:
+            it.raise_(TypeError, "sign() missing signature_algorithm")
+        return VLib("DSSSignature", key=self, data=data)
+    variant = self.f["ktype"]
+    t = EDDSA_SIG(self.f["data"].e, z3.StringVal(variant), data.e)
+    n = 64 if variant == "ed25519" else 114
+    it.assume(z3.Length(t) == n)
+    it.known_lens[t.sexpr()] = n
+    return VBytes(t)
+
+
+@handler("decode_dss_signature")
+def _decode_dss(it, self, args, kw):
+    sig = args[0]
+    if not (isinstance(sig, VLib) and sig.kind == "DSSSignature"):
+        raise OutOfSubset("decode_dss_signature of unknown data")
+    key = sig.f["key"]
+    ks = key.f["key_size"].conc
+    r = ECDSA_R(key.f["data"].e, z3.IntVal(ks), sig.f["data"].e)
+    s_ = ECDSA_S(key.f["data"].e, z3.IntVal(ks), sig.f["data"].e)
+    # 0 < r, s < n_curve < 2**key_size  (assumed contract of ECDSA)
+    for x in (r, s_):
+        it.assume(z3.And(x > 0, x < 2 ** ks))
+    _s().note(it, "ECDSA sign / decode_dss_signature: 0 < r, s < 2**key_size")
+    return VTuple([VInt(r), VInt(s_)])
+
+
+@handler("SHA512.new")
+def _sha512_new(it, self, args, kw):
+    return VLib("PrehashedMessage", data=args[0] if args else VBytes(b""))
+
+
+@handler("ECC.import_key")
+def _ecc_import(it, self, args, kw):
+    return VLib("EccKey", text=args[0])
+
+
+@handler("eddsa.new")
+def _eddsa_new(it, self, args, kw):
+    return VLib("EddsaSigner", key=args[0], mode=args[1] if len(args) > 1 else kw.get("mode"))
+
+
+@handler("EddsaSigner.sign")
+def _eddsa_sign(it, self, args, kw):
+    msg = args[0]
+    if not (isinstance(msg, VLib) and msg.kind == "PrehashedMessage"):
+        raise OutOfSubset("pycryptodome eddsa over a non-prehashed message")
+    it.trace.append(("crypto-sign", "ed25519ph", 256, msg.f["data"]))
+    key_text = self.f["key"].f["text"]
+    kt = _s().utf8_of(it, key_text) if isinstance(key_text, VStr) else key_text
+    t = EDDSA_SIG(kt.e, z3.StringVal("ed25519ph"), msg.f["data"].e)
+    it.assume(z3.Length(t) == 64)
+    it.known_lens[t.sexpr()] = 64
+    return VBytes(t)
+
+
+@handler("spec.ECDSA_R")
+def _spec_ecdsa_r(it, self, args, kw):
+    return VInt(ECDSA_R(args[0].e, args[1].e, args[2].e))
+
+
+@handler("spec.ECDSA_S")
+def _spec_ecdsa_s(it, self, args, kw):
+    return VInt(ECDSA_S(args[0].e, args[1].e, args[2].e))
+
+
+@handler("spec.EDDSA_SIG")
+def _spec_eddsa(it, self, args, kw):
+    k = args[0]
+    if isinstance(k, VStr):
+        k = _s().utf8_of(it, k)
+    t = EDDSA_SIG(k.e, args[1].e, args[2].e)
+    return VBytes(t)
+
+
+@handler("spec.SIGN")
+def _spec_sign(it, self, args, kw):
+    """SIGN(key file content, algorithm name, message): the signature the file-based KMS returns (uninterpreted)."""
+    F = z3.Function("KMS_SIGN", BSort, S, BSort, BSort)
+    return VBytes(F(args[0].e, args[1].e, args[2].e))
+
+
+@handler("spec.KEY_IS_EC")
+def _spec_key_is_ec(it, self, args, kw):
+    return VBool(args[0].f["ktype"] == "ec")
+
+
+@handler("spec.KEY_SIZE")
+def _spec_key_size(it, self, args, kw):
+    return args[0].f["key_size"]
+
+
+@handler("spec.KEY_KIND")
+def _spec_key_kind(it, self, args, kw):
+    return VStr(args[0].f["ktype"])
+
+
+@handler("spec.KEY_DATA")
+def _spec_key_data(it, self, args, kw):
+    return args[0].f["data"]
